@@ -16,7 +16,7 @@ TEXT = {
         engine="choice (E1)",
         design_ref="DESIGN.md §3 C11",
         technique="tiered bounded-exhaustive generation of AML programs from the supported grammar subset, encoded by an independent encoder and compared with a reference namespace built from the AST; differential cross-check on an overlay with the kept candidate repair",
-        text="T1 every construct (20) x name form (7) x container (13) x PkgLength encoding; T2 41 call/field/operator/module-level programs (forward, backward and nested calls, calls inside If/While/Store/Add/DerefOf/Index, calls with operator arguments, module-level code) x containers and every ordered pair of constructs; T3 nested containers; T4 two-table loads. For every program the reference accepts: ParseAML succeeds, every named object is found at the absolute path ACPI scoping gives it with its declared kind, constants/strings/buffer bytes/field offset+width/mutex level carry the encoded values, every method invocation anywhere has exactly the declared number of arguments attached, no named object sits at a path the program does not declare. Failures whose program exhibits one of the two known root causes (by structural predicate) are reported as known findings and must pass on a second build with the kept repair applied through the overlay; any other failure is a violation.",
+        text="T1 every construct (20) x name form (7) x container (13) x PkgLength encoding; T2 41 call/field/operator/module-level programs (forward, backward and nested calls, calls inside If/While/Store/Add/DerefOf/Index, calls with operator arguments, module-level code) x containers and every ordered pair of constructs; T3 nested containers; T4 two- and three-table loads on one parser (Scope into / call into an earlier table; later tables after a table with deferred Buffer/While/Package blocks); T5 chains of Scope / relocation blocks that need several resolve passes, in every order. For every program the reference accepts: ParseAML succeeds, every named object is found at the absolute path ACPI scoping gives it with its declared kind, constants/strings/buffer bytes/field offset+width/mutex level carry the encoded values, every method invocation anywhere has exactly the declared number of arguments attached, no named object sits at a path the program does not declare. Failures whose program exhibits one of the two known root causes (by structural predicate) are reported as known findings and must pass on a second build with the kept repair applied through the overlay; any other failure is a violation.",
         note="Programs up to the tier sizes; conditionally declared objects (If at table level) are dynamic and outside the static namespace.",
     ),
     "C12": dict(
@@ -30,7 +30,7 @@ TEXT = {
         engine="choice (E1)",
         design_ref="DESIGN.md §3 C20",
         technique="bounded-exhaustive enumeration of generated source trees x every iteration order of every map-typed range (Go's map iteration turned into an explorer choice by a go/types-driven rewrite) against an independent scanner",
-        text="redirects.go is type-checked and every map-typed range in it is rewritten to iterate in an order the explorer chooses; FindRedirects then runs on generated trees (every single item and ordered pair of 11 declaration kinds incl. look-alikes on vars, types, in bodies, detached or trailing comments, prose mentions; triples; multi-file trees with nested directories, _test.go and non-Go files) under every iteration order (full product for one map, deviation-bounded across several). The table must contain exactly the (source symbol, fully qualified destination) pairs an independent go/parser scanner finds on function declarations, and must be identical under every explored iteration order; the kernel tree itself is checked against the scanner.",
+        text="redirects.go is type-checked and every map-typed range in it is rewritten to iterate in an order the explorer chooses; FindRedirects then runs on generated trees (every single item and ordered pair of 11 declaration kinds incl. look-alikes on vars, types, in bodies, detached or trailing comments, prose mentions; triples; multi-file trees with nested directories, _test.go and non-Go files; directory and file names that are prefixes of one another) under every iteration order (full product for one map, deviation-bounded across several). The table must contain exactly the (source symbol, fully qualified destination) pairs an independent go/parser scanner finds on function declarations, and must be identical under every explored iteration order; the kernel tree itself is checked against the scanner.",
         note="Any deterministic order is accepted; the ELF symbol lookup (CompleteRedirects) is outside the property.",
     ),
     "C18": dict(
@@ -58,7 +58,7 @@ TEXT = {
         engine="choice (E1)",
         design_ref="DESIGN.md §3 C14",
         technique="bounded-exhaustive enumeration of firmware memory images through the real probe + DriverInit",
-        text="~64k images (thorough: all four tables): root pointer at every admissible 16-byte slot of the search window, revision 0/2, decoys with a valid signature and bad checksum before/after, every order of the listed tables, every subset corrupted, FADT with 32-/64-bit/both DSDT pointers, DSDT valid/corrupt, a root pointer with a bad checksum only; plus the first/last admissible slots of the real 0xe0000-0xfffff area. Oracles: the pointer is found iff valid, the 32-bit root table is followed for revision 0 and the 64-bit one otherwise, the registered table map equals {tables whose bytes sum to zero} plus the DSDT of a valid FADT, each corrupt table is reported as skipped exactly once and enumeration continues.",
+        text="~64k images (thorough: all four tables): root pointer at every admissible 16-byte slot of the search window, revision 0/2, decoys with a valid signature and bad checksum before/after, every order of the listed tables, every subset corrupted, FADT with 32-/64-bit/both DSDT pointers, DSDT valid/corrupt, a root pointer with a bad checksum only, bad-checksum structures corrupted in the first 20 bytes or only in the extended part, of the same or the other revision, arbitrary bytes behind a revision-0 structure; plus the first/last admissible slots of the real 0xe0000-0xfffff area. Oracles: the pointer is found iff valid, the 32-bit root table is followed for revision 0 and the 64-bit one otherwise, the registered table map equals {tables whose bytes sum to zero} plus the DSDT of a valid FADT, each corrupt table is reported as skipped exactly once and enumeration continues.",
         note="Identity-map seams; the revision-2 checksum is taken over the 40-byte Go struct (4 bytes after the structure kept zero).",
     ),
     "C15": dict(
@@ -93,7 +93,7 @@ TEXT = {
         engine="choice (E1) + software MMU",
         design_ref="DESIGN.md §3 C05",
         technique="bounded-exhaustive enumeration of ELF section sets, reservations and allocation-failure points through the real setupPDTForKernel; exhaustive scan of the new root",
-        text="Every single section over 80 shapes x 5 bases x {0,1,3} reservations, section pairs (full 80x80 product in thorough), adjacent-page triples, three kernel offsets and allocation failure at each of the first 14 allocations run through the real setupPDTForKernel on the software MMU. The new root is scanned exhaustively: every page of every in-range section maps to (addr-offset)>>12+i with P, RW iff writable, NX iff not executable, never user; early reservations keep their translation; nothing else is mapped; CR3 is the new root on success and unchanged on failure.",
+        text="Every single section over the shape set (start offsets {0,1,0x10,0x800,0xff0,0xfff} x sizes ending one byte before / at / one / two bytes after a page boundary over 1-3 pages x W/A/X flag sets) x 5 bases x {0,1,3} reservations, section pairs (full product in thorough), adjacent-page and three-section sets, many-page sections, three kernel offsets and allocation failure at each of the first 14 allocations run through the real setupPDTForKernel on the software MMU. The new root is scanned exhaustively: every page of every in-range section maps to (addr-offset)>>12+i with P, RW iff writable, NX iff not executable, never user; early reservations keep their translation; nothing else is mapped; CR3 is the new root on success and unchanged on failure.",
         note="Sections are delivered through the visitElfSectionsFn seam (decoding is C10) and never share a page (the property's precondition).",
     ),
     "C06": dict(
@@ -121,7 +121,7 @@ TEXT = {
         engine="graph (E2)",
         design_ref="DESIGN.md §3 C17",
         technique="explicit-state BFS of the real tty.VT to a fixed point of reachable states per geometry, against a reference terminal",
-        text="For every console geometry with <=9 (thorough 12) buffer cells (width/height 1..4, scrollback 0..2, tab width {0,1,2,5}) every reachable terminal state under {printable, CR, LF, BS, TAB, multi-byte Write, cursor moves incl. 0 / dim+1 / 2^32-1, activate, deactivate} is visited; after every event cursor, viewport origin and every (char, fg, bg) cell of buffer and scrollback must equal a reference terminal written from the statement; a Go bounds panic (how an out-of-buffer write manifests) is a violation. Two printable symbols are used on smaller geometries and to a bounded depth on larger ones.",
+        text="For every console geometry with <=9 (thorough 12) buffer cells (width/height 1..4, scrollback 0..2, tab width {0,1,2,5}) every reachable terminal state under {printable, CR, LF, BS, TAB, multi-byte Write, cursor moves incl. 0 / dim+1 / 2^32-1, activate, deactivate} is visited; after every event cursor, viewport origin and every (char, fg, bg) cell of buffer and scrollback must equal a reference terminal written from the statement; a Go bounds panic (how an out-of-buffer write manifests) is a violation. Two printable symbols are used on smaller geometries and to a bounded depth on larger ones; the shipped 80x25/scrollback-80/tab-4 geometry and six consoles wider than very wide tabs (86..255) are driven with structured streams (every ordered pair/triple of events repeated past two full scrolls).",
         note="Colours are the console defaults (no API changes the current colours); the console behind the terminal is a reference grid (shipped drivers: C18/C19).",
     ),
     "C01": dict(
